@@ -12283,6 +12283,8 @@ tmcg_openpgp_byte_t CallasDonnerhackeFinneyShawThayerRFC4880::PacketDecodeTag57
 	{
 		if (out.s2kconv == 255)
 			return 0; // error: forbidden by spec (RFC4880bis)
+		if (mpis.size() < 1)
+			return 0; // error: no v5 octet count
 		mpis.erase(mpis.begin(), mpis.begin()+1); // skip octet count
 	}
 	if (out.s2kconv == 0)
